@@ -302,6 +302,25 @@ func TestC18(t *testing.T) {
 			lay.Gaps[len(lay.Gaps)-1] += "\n"
 			feats = append(feats, "padded-source")
 		}
+		if gen.Chance(t, 8, "pagealigned") {
+			// a two-byte separator straddling a 4096-byte page boundary, right
+			// after a token (the tool reads files in pages)
+			var cand []int
+			for i := 1; i < len(toks); i++ {
+				cand = append(cand, i)
+			}
+			if len(cand) > 0 {
+				i := gen.Pick(t, "alignat", cand)
+				lay.Gaps[i] = gen.Pick(t, "alignsep", []string{"\u00a0", "\u0085"})
+				_, pos := gen.Render(toks, lay)
+				off := pos[i-1].End // first byte of the separator
+				page := 4096 * gen.Int(t, 1, 2, "alignpage")
+				if need := page - 1 - off; need >= 2 {
+					lay.Gaps[0] = "#" + strings.Repeat("a", need-2) + "\n" + lay.Gaps[0]
+					feats = append(feats, "separator-across-page-boundary")
+				}
+			}
+		}
 		src, _ := renderChecked(toks, lay)
 		slowStdin = nil
 		fl := flagSet{gen.Bool(t, "d"), gen.Bool(t, "t"), gen.Bool(t, "r"), gen.Bool(t, "s")}
